@@ -207,7 +207,7 @@ def main():
         base = os.path.join(VERIF, "seeded")
         print("| property | seeded change (origin: sub-agent) | kind | confirmed by demo | checks that fire | refused (exit 2) |")
         print("|---|---|---|---|---|---|")
-        for pid in sorted(os.listdir(base)):
+        for pid in sorted(x for x in os.listdir(base) if os.path.isdir(os.path.join(base, x))):
             for name in sorted(os.listdir(os.path.join(base, pid))):
                 mp = os.path.join(base, pid, name, "meta.json")
                 if not os.path.exists(mp):
@@ -223,13 +223,13 @@ def main():
         base = os.path.join(VERIF, "seeded")
         only = a[1:] or sorted(os.listdir(base))
         jobs = [pid for pid in only if os.path.isdir(os.path.join(base, pid))]
-        with ProcessPoolExecutor(max_workers=10) as ex:
+        with ProcessPoolExecutor(max_workers=16) as ex:
             for lines in ex.map(_confirm_pid, jobs):
                 print("\n".join(lines), flush=True)
     elif a[0] == "all":
         rows = []
         base = os.path.join(VERIF, "seeded")
-        for pid in sorted(os.listdir(base)):
+        for pid in sorted(x for x in os.listdir(base) if os.path.isdir(os.path.join(base, x))):
             for name in sorted(os.listdir(os.path.join(base, pid))):
                 d = os.path.join(base, pid, name)
                 if not os.path.exists(os.path.join(d, "patch.diff")):
